@@ -249,6 +249,17 @@ pub fn gen_c05(out: &mut dyn Write, thorough: bool, seed: u64) {
             writeln!(out, "S tok:612f78206263,{k}:{h},obs c05").unwrap();
         }
     });
+    // special scalar values (controls, white space of every kind, the byte order mark, joiners, directional marks,
+    // noncharacters, plane edges ...) at the start, at the end and alone, through every parser as constructor and as update
+    for c in crate::util::special_scalars() {
+        for t in [format!("{c}"), format!("{c}a"), format!("a{c}"), format!("{c}{c}b"), format!("a {c}"), format!("{c}-a|b")] {
+            let h = hexs(&t);
+            for k in ["raw", "tok", "part"] {
+                writeln!(out, "S F{k}:{h},obs c05").unwrap();
+                writeln!(out, "S tok:612f78206263,{k}:{h},obs c05").unwrap();
+            }
+        }
+    }
     writeln!(out, "S Fraw:-,obs c05\nS Ftok:-,obs c05\nS Fpart:-,obs c05\nS raw:-,obs c05\nS tok:-,obs c05\nS part:-,obs c05").unwrap();
     // exhaustive: all op sequences up to length 3 over a 9-op alphabet
     let alpha: Vec<String> = vec![
